@@ -532,12 +532,15 @@ def empty_generation_lemma():
     defs = [G.OFF(m, 0) == 0, G.L(m + 1) == G.OFF(m, G.L(m))]
     out = []
     for nm, hyps, goal in (("base", [G.L(k) == 0], G.L(k) == 0), ("step", defs + [k <= m, G.L(m) == 0], G.L(m + 1) == 0)):
+        t0 = time.time()
+        vac = z3.Solver()
+        vac.set("timeout", 10000)
+        vac.add(*hyps)
         sol = z3.Solver()
         sol.set("timeout", 10000)
         sol.add(*hyps)
         sol.add(z3.Not(goal))
-        t0 = time.time()
-        out.append((nm, sol.check() == z3.unsat, time.time() - t0))
+        out.append((nm, vac.check() == z3.sat and sol.check() == z3.unsat, time.time() - t0))      # hypotheses satisfiable (not vacuous) and goal entailed
     return out
 
 
